@@ -186,6 +186,23 @@ CLAIMED = {
              'theorems closed under the global context.',
         technique='Coq invariant proofs over operation histories of two cache disciplines (==-keyed with exceptions; id-keyed with heap/gc) + refutation witnesses + differential correspondence with the real decorators and with pristine interpreters',
         design='5/C14'),
+    'C16': dict(
+        text='Machine-checked (Coq 8.16.1) over a model of the two bytecode cache slots of a module (selected by '
+             'beartype\'s marker), CPython\'s stamp validation and the loader\'s steps around the patched global '
+             'cache_from_source: for every sequence of interpreter runs (any hook state and configuration per run, any '
+             'source edits) each run loads bytecode that is transformed iff the module is hooked in that run and '
+             'compiled from the current source; it is exactly the current configuration applied to the current '
+             'source when all hooked runs agree on the AST-relevant options, and machine-refuted otherwise (F16a: '
+             'the marker ignores the configuration); serialised imports keep the caches apart, and one interleaving '
+             'of a hooked and an unhooked import is machine-refuted (F16b). Compared on every run with generated '
+             'sequences of real interpreter processes (bytecode writing enabled; hook off/on, claw_is_pep526, '
+             'custom violation type, source edits) observed through what the loaded module does and the cache '
+             'file names, and with a paused-import race scenario.',
+        note='Trusted: Coq kernel; the hand-written model C16/Cache.v (tied by correspondence); CPython\'s pyc '
+             'validation and import locks are observed, not modelled; the concurrent model has the granularity of '
+             'the loader\'s four steps (read off the source on every run). All theorems closed under the global context.',
+        technique='Coq invariant proof over sequences of runs of a cache-slot model + schedule-level model of the patched global (serial schedules proved, a racing schedule refuted by vm_compute) + differential correspondence with real interpreter runs',
+        design='5/C16'),
     'C04': dict(
         text='Machine-checked (Coq 8.16.1): for every signature over the five parameter kinds with pairwise '
              'distinct names and every call that CPython\'s binding rule accepts, the values selected by the '
